@@ -66,16 +66,27 @@ QUICK_STDLIB = ["RoundRobinArbiter_4", "RoundRobinArbiterEn_3", "Mux_8_4", "Mux_
                 "DropUnitRTL"]
 
 
+# the yosys check shares the expression translator with C03 and validates every run twice (cross check
+# against the SystemVerilog text, second opinion for signed loop variables): fewer expression designs,
+# more structural ones
+GEN_C12 = {
+    "quick": [("unit", 80), ("ops", 16), ("expr", 12), ("ctrl", 12), ("loopidx", 10), ("struct", 18), ("hier", 10),
+              ("seq", 8), ("misc", 12)],
+    "thorough": [("unit", 320), ("ops", 300), ("expr", 240), ("ctrl", 200), ("loopidx", 100), ("struct", 180),
+                 ("hier", 120), ("seq", 100), ("misc", 120)],
+}
+
+
 def gen_specs(tier, seed_tag):
     specs = []
-    for fam, n in GEN[tier]:
+    for fam, n in (GEN_C12 if seed_tag == "C12" else GEN)[tier]:
         for i in range(n):
             name, src, meta = svgen.design(fam, i, seed_tag)
             specs.append(("gen", name, src, "Top", meta))
     return specs
 
 
-def corpora(tier):
+def corpora(tier, pid=PID):
     """[(label, specs, random runs per design, cycles per run)]"""
     names = svcorpus.repo_case_names()
     std_all = svcorpus.stdlib_names(big=False)
@@ -84,21 +95,21 @@ def corpora(tier):
         cfg = {"explicit_module_name": "RenamedTop"}
         return [("repo", [("repo", n) for n in names], 1, 8),
                 ("stdlib", [("stdlib", n) for n in std] + [("stdlib", n, cfg) for n in std[:4]], 1, 12),
-                ("gen", gen_specs(tier, PID), 1, 6)]
+                ("gen", gen_specs(tier, pid), 1, 6)]
     cfg = {"explicit_module_name": "RenamedTop", "explicit_file_name": "renamed_file.v"}
     return [("repo", [("repo", n) for n in names], 4, 20),
             ("repo_cfg", [("repo", n, cfg) for n in names[::3]], 1, 10),       # translation config: explicit names
             ("stdlib", [("stdlib", n) for n in std_all], 2, 30),
             ("stdlib_big", [("stdlib", n) for n in svcorpus.stdlib_names(big=True) if n not in std_all], 1, 40),
-            ("gen", gen_specs(tier, PID), 2, 12)]
+            ("gen", gen_specs(tier, pid), 2, 12)]
 
 
-def run(res, tier, backend=BACKEND, pid=PID, cross=False, portmap=False):
+def run(res, tier, backend=BACKEND, pid=PID, cross=False, portmap=False, uns=False):
     batches = []
-    for label, specs, nrand, ncyc in corpora(tier):
+    for label, specs, nrand, ncyc in corpora(tier, pid):
         if not specs:
             raise MachineryError("empty corpus %s" % label)
-        B = svcheck.run_batch(res, backend, specs, nrand, ncyc, "%s/%s" % (pid, tier), label, cross=cross)
+        B = svcheck.run_batch(res, backend, specs, nrand, ncyc, "%s/%s" % (pid, tier), label, cross=cross, uns=uns)
         batches.append(B)
         res.note("corpus_%s_designs" % label, len(specs))
     # -- the interpreter must have reproduced the maintainers' vectors
@@ -107,7 +118,7 @@ def run(res, tier, backend=BACKEND, pid=PID, cross=False, portmap=False):
     if n_sets < 50 or n_ok == 0:
         raise MachineryError("only %d hand-written vector sets could be run (%d reproduced)" % (n_sets, n_ok))
     svcheck.check_coverage(res, batches, need_flat=portmap)
-    svcheck.canaries(res, batches, rng("%s/canaries/%s" % (pid, tier)), n=12 if tier == "quick" else 30, portmap=portmap)
+    svcheck.canaries(res, batches, rng("%s/canaries/%s" % (pid, tier)), n=8 if tier == "quick" else 20, portmap=portmap)
     # -- evidence
     for B in batches:
         k = 0
@@ -127,6 +138,8 @@ def run(res, tier, backend=BACKEND, pid=PID, cross=False, portmap=False):
              "(operator x operand shape x width grid, control flow, structs, arrays, hierarchies, sequential logic); "
              "distinct = distinct (back end, design, run) tags; a run is non-trivial when it has at least one output "
              "comparison (runs of designs without outputs only exercise syntax / OneDriver)")
+    res.note("disagreements_checked_is", "the number of output-leaf comparisons TLC made between the value the emitted text "
+             "computes and the value recorded from the PyMTL simulation (clauses mismatch-comb / mismatch-tick)")
     res.assume("harness/svparse.py decides syntactic validity for the emitted subset of IEEE 1800-2017; constructs outside "
                "the subset are a machinery failure")
     res.assume("spec/SVSem.tla is our reading of IEEE 1800-2017 two-state semantics (clauses 6.24.1, 7.2.1, 7.4, 10.3, 10.4, "
@@ -134,6 +147,39 @@ def run(res, tier, backend=BACKEND, pid=PID, cross=False, portmap=False):
     res.assume("cycles in which the PyMTL simulation raises (division by zero, out-of-range index) are outside the property; "
                "designs rejected by the translation pass and VerilogPlaceholder designs are outside the quantifier")
     return batches
+
+
+def replay(obj, backend=BACKEND, pid=PID):
+    """Re-run the design of a replay file (written for a violation): translate it again with the pass of
+    $VERIF_REPO, record the same stimulus, validate with TLC and print the verdict of every trace."""
+    import common
+    d = obj.get("detail") or {}
+    spec = d.get("spec")
+    tier = obj.get("tier", "quick")
+    if not spec:
+        print(obj)
+        return 0
+    found = None
+    for label, specs, nrand, ncyc in corpora(tier, pid):
+        for sp in specs:
+            if list(sp[:2]) == list(spec[:2]):
+                found = (sp, nrand, ncyc)
+                break
+        if found:
+            break
+    if not found:
+        print("design %s is not in the %s corpus of %s any more" % (spec, tier, pid))
+        return 2
+    sp, nrand, ncyc = found
+    res = common.Result(pid, tier, LEVEL)
+    B = svcheck.run_batch(res, backend, [sp], nrand, ncyc, "%s/%s" % (pid, tier), "replay", cross=False)
+    for t, (v, info) in zip(B.traces, B.vi):
+        print("%-60s %s at %d" % (t["tag"], v[0], v[1]))
+    for v in res.violations + [dict(k, what="(known finding) " + k["what"]) for k in res.known]:
+        print("VIOLATION %s\n  %s" % (v["key"], v["what"]))
+    if B.preps and B.preps[0].get("text") and B.preps[0]["status"] == "syntax":
+        print(B.preps[0]["text"][-2000:])
+    return 1 if (res.violations or res.known) else 0
 
 
 def _hex(bits):
